@@ -171,33 +171,27 @@ def run(ctx):
                     if not (body.get("callee") == "serde_core::ser::Serialize::serialize" and len(args) == 2 and H.local_id(args[0]) in binds and H.local_name(args[1]) in pn):
                         good = False
         ctx.oblige("C02|untagged|AttestationStatement", good, "AttestationStatement no longer forwards to its payload's own encoding without a tag", cfg=cfg)
-        # filtered parameter list: definite sequence of PublicKeyCredentialParameters built by From<Known..>
+        # filtered parameter list: a definite-length sequence with one {alg: <same alg>, type: "public-key"} map per kept entry
         fn = T.ser_impl(F, "webauthn::FilteredPublicKeyCredentialParameters")
-        good = False
+        good, why = False, "anchor missing"
         if fn is not None:
-            calls = [c for c, _, _ in T.ordered_calls(fn["body"])]
-            seq = [c for c in calls if c.get("callee") == "serde_core::ser::Serializer::serialize_seq"]
-            elems = [c for c in calls if c.get("callee") == "serde_core::ser::SerializeSeq::serialize_element"]
-            ends = [c for c in calls if c.get("callee") == "serde_core::ser::SerializeSeq::end"]
-            conv = [c for c in calls if H.conversion_impl(c) == "<webauthn::PublicKeyCredentialParameters as core::convert::From<webauthn::KnownPublicKeyCredentialParameters>>"]
-            good = len(seq) == 1 and len(elems) == 1 and len(ends) == 1 and len(conv) == 1 and (elems[0].get("targs") or [None, None])[1] == "webauthn::PublicKeyCredentialParameters"
+            se = W.seq_emitter(F, fn)
+            good, why = se["ok"], se.get("why", "")
             if good:
-                a = H.strip_block(H.call_args(seq[0])[1])
-                good = a.get("k") == "call" and a.get("ctor") == "core::option::Option::Some"
-        if good:
-            okc, why, _ = T.seq_ser_check(fn)
-            good = okc
-        ctx.oblige("C02|filtered-seq", good, "FilteredPublicKeyCredentialParameters is no longer emitted as a definite sequence of {alg, type} maps", cfg=cfg)
-        conv = F.trait_impl_fn("<webauthn::PublicKeyCredentialParameters as core::convert::From<webauthn::KnownPublicKeyCredentialParameters>>", "from")
-        good = False
-        if conv is not None:
-            b = H.strip_block(conv["body"])
-            if b.get("k") == "struct":
-                fl = {f["name"]: f["e"] for f in b["fields"]}
-                ch = H.field_chain(fl.get("alg", {})) if "alg" in fl else None
-                kt = H.strip_block(fl.get("key_type", {}))
-                good = ch is not None and ch[-1] == "alg" and kt.get("k") == "call" and H.lit(kt["args"][0]) == "public-key" if kt.get("args") else False
-        ctx.oblige("C02|filtered-elem", good, "a known algorithm is no longer re-emitted as {alg: <same alg>, type: \"public-key\"}", cfg=cfg)
+                me = ("param", "self")
+                good = se["collection"] == ("field", me, "0")
+                why = "the sequence is built from %s, not from the filtered list" % se["collection"][0:2].__repr__()
+            if good:
+                probe = ("unk", -1, "elem")
+                el = se["elem"]
+                f = dict(el[2]) if el[0] == "struct" and el[1] == "webauthn::PublicKeyCredentialParameters" else {}
+                kt = f.get("key_type")
+                lit = kt[2][0][1] if kt and kt[0] == "call" and len(kt[2]) == 1 and kt[2][0][0] == "lit" and "heapless::string::String<" in kt[1] else None
+                good = f.get("alg") == ("field", probe, "alg") and lit == "public-key" and set(f) == {"alg", "key_type"}
+                why = "an entry is emitted as %s" % __import__("rules.sym", fromlist=["x"]).show(el)[:120]
+        ctx.oblige("C02|filtered-seq", good, "FilteredPublicKeyCredentialParameters is no longer emitted as a definite sequence of {alg, type: \"public-key\"} maps, one per entry: %s" % why, cfg=cfg)
+        okf, lit_f, detail = W.reemitted_entry(F)
+        ctx.oblige("C02|filtered-elem", okf and lit_f == "public-key", "a known algorithm is no longer re-emitted as {alg: <same alg>, type: \"public-key\"} (%s)" % detail, cfg=cfg)
         # framing
         c17.check(ctx, F, cfg, P="C02")
         c17.payload(ctx, F, cfg, spec, P="C02")
